@@ -1,16 +1,24 @@
 """C03 - Derived grids (resize, pyramid, crop, pad, pool) keep their place in the world.
 
-A case is a grid descriptor plus a chain of 1-3 derivation operations.  Every operation is applied to the
+A case is a grid descriptor plus a chain of 1-3 derivation operations, or (facet ``trees``) 2-5 derivation steps each
+applied to any grid obtained so far.  Every operation is applied to the
 deepali ``Grid`` *and* to a float64 reference state (``State``: integer size n, float-valued internal size f,
 spacing, center, direction, align_corners) written from the docstrings / the property statement.  After
 every step the returned grid is compared with the reference state and with anchors computed from the
 *previous* reference state (corner samples / cube faces for the resize family, world positions of retained
 samples for the index family), so an error cannot hide behind an earlier operation.
+
+Keeping one's place in the world includes the grids that already exist: Grid objects share attribute tensors (shallow
+copies in the resize family and the setters, ``Grid(spacing=other.spacing())`` in the index family), so every grid of a
+case is fingerprinted attribute by attribute (``Family``) and compared after every call, and all of them are compared
+with their reference states again at the end.
 """
 from __future__ import annotations
 
+import copy
 import itertools
 import math
+import pickle
 import traceback
 
 import numpy as np
@@ -18,7 +26,7 @@ import torch
 from hypothesis import strategies as st
 
 from vlib import gen, ref
-from vlib.case import make_grid
+from vlib.case import grid_state, make_grid, warm_grid
 from vlib.core import EPS32, Facet, Violation, check_close
 
 PROPERTY = "C03"
@@ -33,11 +41,19 @@ MANIFEST = {
             "direction, origin and the world positions of corner/face/retained samples are compared, pyramid levels are "
             "checked for the documented size rule, equal cube extent and same_domain_as, and downsample(l).upsample(l) == "
             "grid whenever no axis was clamped. Any exception (in particular internal AssertionErrors) is a violation. "
-            "Exploration, not proof.",
+            "Facet trees: 2-5 steps, each applied twice (equal results required) to any grid obtained so far (parents, siblings, "
+            "grandchildren, every pyramid level) after optional read-only warm-up calls, the vocabulary extended by the spacing/"
+            "center/origin/direction/align_corners setters (new-grid form, and in-place form on a shallow copy), clone/copy/"
+            "deepcopy/pickle and Grid(size=g.size(), spacing=g.spacing(), ...); in all facets every grid of the case is "
+            "fingerprinted (internal size, spacing, center, direction, flag) and must be bit-identical after every later call, "
+            "and every grid is compared with its reference state again at the end; clone/deepcopy results share no memory with "
+            "their source. Exploration, not proof.",
     "note": "Trusted: the float64 reference geometry in props/c03.py (State/model_apply, self-tested for its own anchors) "
             "and vlib/ref.GridModel. Tolerance 64*eps32*(|center|+extent) because deepali stores grid attributes in float32. "
             "Resize-family operations change an axis only between sizes >= 2 when corners are aligned (the property "
-            "quantifies over target sizes >= 2); an axis that keeps its size, including a singleton axis, keeps its spacing.",
+            "quantifies over target sizes >= 2); an axis that keeps its size, including a singleton axis, keeps its spacing. "
+            "Setters keep the stored center point (class docstring) and every attribute they do not name. Bound grows linearly "
+            "with the number of derivations beyond 3 (rounding accumulates per step).",
     "technique": "property-based testing (Hypothesis) of operation chains against a float64 reference model of derived-grid "
                  "geometry, plus the library's own predicates (==, same_domain_as) as stated in the property",
 }
@@ -57,12 +73,19 @@ ASSUMPTIONS = [
     "same domain / cube extent); the size of level 0 itself is implementation-defined and not asserted",
     "crop/pad: the single positional int form crop(k) is not generated (ambiguous in the docs); pool kernels are scalars "
     "or tuples with equal entries (axis order of kernel tuples is not documented)",
+    "existing grids unchanged: compared are the five attributes of a Grid (float-valued internal size, spacing, center, "
+    "direction, align_corners) bit for bit; operations documented to return the grid itself (no-op short-cuts) are "
+    "recognised by object identity; in-place setters (center_, origin_, spacing_, direction_, align_corners_) are only "
+    "applied to a fresh copy.copy() of a grid, whose own change is expected and whose relatives must stay as they were",
+    "the same call repeated on the same grid: equal internal size and flag, other attributes within 4 eps32",
 ]
 
 K = 64.0
 NMAX = 256  # no growing operation is generated beyond this size
 TIE = 64 * EPS32
 LETTERS = ("x", "y", "z")
+COPY_OPS = ("clone", "copy", "deepcopy", "pickle", "ctor_center", "ctor_origin")  # ctor_*: Grid(size=g.size(), spacing=g.spacing(), ...)
+SLOTS = ("size", "spacing", "center", "direction", "align_corners")  # order of vlib.case.grid_state
 
 
 # ---------------------------------------------------------------------------------------
@@ -351,6 +374,28 @@ def model_apply(st: State, op: dict) -> Res:
         return Res("cube", [st.with_(n=n, f=n, fk=[True] * D, s=s, ac=b)], ac_eff=b)
     if name == "align_corners":
         return Res("flag", [st.with_(ac=bool(op["value"]))])
+    if name in ("ctor_center", "ctor_origin"):
+        # Grid(size=g.size(), center=g.center() | origin=g.origin(), spacing=g.spacing(), direction=g.direction(), align_corners=...)
+        # family "ctor": the center of the origin= route is recomputed (rounding ~ eps32 * (|origin| + extent)), no pass-through
+        return Res("ctor", [st.with_(f=st.n, fk=[True] * D)])
+    if name in COPY_OPS:
+        return Res("copy", [st])
+    if name.startswith(("with_", "set_")):
+        # documented setters: the named attribute is replaced, the stored center point (class docstring) and all
+        # other attributes are kept; origin = world position of the sample with index zero
+        attr = name.split("_", 1)[1]
+        if attr == "spacing":
+            return Res("setter", [st.with_(s=np.asarray(_fl(op["value"], D), dtype=np.float64))])
+        if attr == "center":
+            return Res("setter", [st.with_(c=np.asarray(_fl(op["value"], D), dtype=np.float64))])
+        if attr == "origin":
+            o = np.asarray(_fl(op["value"], D), dtype=np.float64)
+            return Res("setter", [st.with_(c=o + ((st.nn() - 1) / 2) @ (st.R * st.s).T)])
+        if attr == "direction":
+            v = op["value"]
+            return Res("setter", [st.with_(R=ref.direction_matrix(v["rot"], v["perm"], v["flip"]))])
+        if attr == "align_corners":
+            return Res("setter", [st.with_(ac=bool(op["value"]))])
     raise ValueError(name)
 
 
@@ -422,6 +467,35 @@ def call_op(g, op):
         return cube.grid(**{op["by"]: v}, **a)
     if name == "align_corners":
         return g.align_corners(bool(op["value"]))
+    if name == "clone":
+        return g.clone()
+    if name == "copy":
+        return copy.copy(g)
+    if name == "deepcopy":
+        return copy.deepcopy(g)
+    if name == "pickle":
+        return pickle.loads(pickle.dumps(g))
+    if name in ("ctor_center", "ctor_origin"):
+        from deepali.core import Grid
+
+        where = {"center": g.center()} if name == "ctor_center" else {"origin": g.origin()}
+        return Grid(size=g.size(), spacing=g.spacing(), direction=g.direction(), align_corners=g.align_corners(), **where)
+    if name.startswith(("with_", "set_")):
+        kind, attr = name.split("_", 1)
+        v = op["value"]
+        if attr == "direction":
+            R = ref.direction_matrix(v["rot"], v["perm"], v["flip"])
+            a = (torch.tensor(R, dtype=torch.float64),) if op.get("form") == "tensor" else ([[float(x) for x in row] for row in R],)
+        elif attr == "align_corners":
+            a = (bool(v),)
+        else:
+            a = tuple(v) if op.get("form") == "args" else (v,)
+        if kind == "with":
+            return getattr(g, attr)(*a)
+        # in-place setter applied to a fresh shallow copy (which shares every attribute tensor with g)
+        q = copy.copy(g)
+        getattr(q, attr + "_")(*a)
+        return q
     raise ValueError(name)
 
 
@@ -515,25 +589,87 @@ def check_pyramid_sizes(n, L, sel, min_size, sizes):
                 raise Violation("pyramid:size_recurrence", f"dim {d}: level {lv - 1} size {p} -> level {lv} size {v}, expected {e} (min_size={min_size})")
 
 
-def run_chain(case):
-    g = case["grid"]
-    grid = make_grid(g, case.get("route", "center"))
-    stt = State.from_desc(g)
-    Wmax = stt.W()
-    worst = check_state("initial", grid, stt, K * EPS32 * Wmax)
-    labels = [f"D={len(g['size'])}", f"ac={g['ac']}", g["kind"], f"len={len(case['ops'])}", "route=" + ("origin" if "origin" in g else case.get("route", "center"))]
-    stopped = False
-    for step, op in enumerate(case["ops"]):
-        name = op["op"]
-        res = model_apply(stt, op)
-        if res.extra.get("skip"):
-            labels.append("tie_stop")
-            stopped = True
-            break
-        labels.append(name)
-        singleton = res.family in ("resize", "pyramid") and bool(res.ac_eff) and min(stt.n) < 2
+class Family:
+    """Every live Grid object of a case with a slot-by-slot fingerprint, its reference state and its depth.
+
+    A derivation returns a new grid (or, for documented short-cuts, the grid itself); it never changes the grid it is
+    applied to nor any grid derived earlier.  Grid objects share attribute tensors (shallow copies, Grid(spacing=
+    other.spacing()), ...), so every member is compared with its fingerprint after every call."""
+
+    def __init__(self):
+        self.members = []
+
+    def find(self, grid):
+        for m in self.members:
+            if m["grid"] is grid:
+                return m
+        return None
+
+    def add(self, grid, state, wmax, depth, how):
+        m = self.find(grid)
+        if m is None:
+            m = {"grid": grid, "fp": grid_state(grid), "state": state, "wmax": wmax, "depth": depth, "how": how}
+            self.members.append(m)
+        return m
+
+    def check_intact(self, kind, what):
+        for i, m in enumerate(self.members):
+            now = grid_state(m["grid"])
+            for slot, a, b in zip(SLOTS, m["fp"], now):
+                same = (a == b) if isinstance(a, bool) else (a.shape == b.shape and bool(torch.equal(a, b)))
+                if not same:
+                    a, b = (a, b) if isinstance(a, bool) else (a.tolist(), b.tolist())
+                    raise Violation(f"{kind}:{slot}", f"{what}: attribute '{slot}' of an existing grid (#{i}, obtained by {m['how']}) "
+                                                      f"changed from {a} to {b}; the grid is now {m['grid']!r}")
+
+    def check_final(self):
+        """Every grid of the case is still where the reference geometry puts it (states of ambiguous results are None)."""
+        r = 0.0
+        for m in self.members:
+            if m["state"] is not None:
+                r = max(r, check_state("final", m["grid"], m["state"], _bound(m["wmax"], m["depth"])))
+        return r
+
+
+def _bound(W, depth=1):
+    # float32 rounding of one derivation is proportional to eps32 * (|center| + extent); it accumulates per step
+    return K * EPS32 * W * max(1.0, depth / 3.0)
+
+
+def check_same_result(name, a, b):
+    """The same method with the same arguments on the same grid gives the same grid."""
+    fa, fb = grid_state(a), grid_state(b)
+    if fa[0].shape != fb[0].shape or not bool(torch.equal(fa[0], fb[0])) or fa[4] != fb[4]:
+        raise Violation(f"{name}:second_application_differs", f"first call returned {a!r}, second call on the same grid {b!r}")
+    r = 0.0
+    for slot, x, y in zip(SLOTS[1:4], fa[1:4], fb[1:4]):
+        scale = max(1.0, float(x.abs().max()))
+        r = max(r, check_close(y, x, 4 * EPS32 * scale, f"{name}:second_application_differs",
+                               f"attribute '{slot}': first call returned {a!r}, second call on the same grid {b!r}"))
+    return r
+
+
+def apply_step(fam: Family, member, op, labels, twice=False, warm=0):
+    """Apply one operation to a member of the family; compare the result(s) with the reference geometry and all
+    existing grids with their fingerprints.  Returns (stop, [new members], worst ratio)."""
+    grid, stt, depth = member["grid"], member["state"], member["depth"] + 1
+    name = op["op"]
+    worst = 0.0
+    if warm:
+        warm_grid(grid, warm)
+        fam.check_intact("read_only_call_modified_grid", "read-only calls (accessors, coordinate maps, cube(), ==, repr) on a grid")
+    res = model_apply(stt, op)
+    if res.extra.get("skip"):
+        labels.append("tie_stop")
+        return True, [], worst
+    labels.append(name)
+    how = f"{member['how']}.{name}"
+    singleton = res.family in ("resize", "pyramid") and bool(res.ac_eff) and min(stt.n) < 2
+    outs = []
+    for rep in range(2 if twice else 1):
         if singleton:
-            labels.append("untouched_singleton_axis")
+            if rep == 0:
+                labels.append("untouched_singleton_axis")
             try:
                 out = call_op(grid, op)
             except AssertionError as e:
@@ -544,89 +680,166 @@ def run_chain(case):
                 raise
         else:
             out = call_op(grid, op)
-        Wmax = max([Wmax] + [s.W() for s in res.states])
-        bound = K * EPS32 * Wmax
-        if name == "pyramid":
-            L = int(op["levels"])
-            if not isinstance(out, dict) or sorted(out.keys()) != list(range(L + 1)):
-                raise Violation("pyramid:levels", f"keys {sorted(out.keys()) if isinstance(out, dict) else type(out)} for levels={L}")
-            obs = {lv: [int(v) for v in out[lv].size()] for lv in range(L + 1)}
-            check_pyramid_sizes(stt.n, L, res.extra["sel"], res.extra["min_size"], obs)
-            for lv in range(L + 1):
-                try:
-                    m_lv = resized(stt, obs[lv], [True] * stt.D, stt.ac)
-                except DomainError:
-                    raise Violation("pyramid:size_recurrence", f"level {lv} has size {obs[lv]} for grid size {stt.n}, levels={L}, align_corners={stt.ac}") from None
-                worst = max(worst, check_state("pyramid", out[lv], m_lv, bound))
-                worst = max(worst, check_resize_anchors("pyramid", out[lv], stt, stt.ac, bound))
-                if not out[lv].same_domain_as(out[0]):
-                    raise Violation("pyramid:not_same_domain", f"level {lv} .same_domain_as(level 0) is False: {out[lv]!r} vs {out[0]!r}")
-                if not out[0].same_domain_as(out[lv]):
-                    raise Violation("pyramid:not_same_domain", f"level 0 .same_domain_as(level {lv}) is False")
-                ce, act = stt.cube_extent(), out[lv].cube_extent().double().numpy()
-                pos = ce > 0  # zero along a singleton axis with align_corners=True
-                worst = max(worst, check_close(act[pos] / ce[pos], np.ones(int(pos.sum())), K * EPS32,
-                                               "pyramid:cube_extent", f"cube_extent of level {lv} vs grid"))
-                check_close(act[~pos], np.zeros(int((~pos).sum())), 0.0, "pyramid:cube_extent", f"cube_extent of level {lv} along singleton axes")
-            if obs != {lv: list(v) for lv, v in res.extra["sizes"].items()}:
-                labels.append("pyramid_sizes_unpredicted")
-                stopped = True
-                break
-            grid, stt = out[res.pick], res.states[res.pick]
-            continue
-        new = res.states[0]
-        if res.noop:
-            # documented short-cuts return the grid itself; geometry must be unchanged either way
-            worst = max(worst, check_state(name, out, stt, bound))
-            labels.append("noop")
-            grid = out
-            continue
-        worst = max(worst, check_state(name, out, new, bound, accept_sizes=res.alt_sizes if res.tie and res.alt_sizes else None))
-        if res.family in ("resize", "resample", "cube", "flag"):
-            # statement: center and orientation are kept (deepali stores the center, so this is a pass-through)
-            cmax = max(1.0, float(grid.center().abs().max()))
-            worst = max(worst, check_close(out.center(), grid.center(), 4 * EPS32 * cmax, f"{name}:center_moved", "center() of result vs center() of input"))
-            worst = max(worst, check_close(out.direction(), grid.direction(), 2 * EPS32, f"{name}:direction_changed", "direction() of result vs input"))
-        if res.family == "resize":
-            worst = max(worst, check_resize_anchors(name, out, stt, res.ac_eff, bound))
-            if res.ac_eff == stt.ac and not out.same_domain_as(grid):
-                raise Violation(f"{name}:not_same_domain", f"result.same_domain_as(grid) is False: {out!r} vs {grid!r}")
-            if name == "downsample" and not any(res.clamped) and int(op["levels"]) > 0:
-                kw = {}
-                if op.get("dims") is not None:
-                    kw["dims"] = tuple(op["dims"])
-                if op.get("ac") is not None:
-                    kw["align_corners"] = bool(op["ac"])
-                back = out.upsample(int(op["levels"]), **kw)
-                if not (back == grid):
-                    raise Violation("downsample:upsample_roundtrip_neq", f"downsample({op['levels']}).upsample({op['levels']}) != grid: {back!r} vs {grid!r}")
-                worst = max(worst, check_state("downsample:upsample_roundtrip", back, stt, bound))
-                labels.append("down_up")
-        elif res.family == "index":
-            worst = max(worst, check_index_positions(name, out, stt, res, bound))
-        elif res.family == "resample":
-            sp = res.extra["spacing"]
-            worst = max(worst, check_close(out.spacing().double().numpy() / sp, np.ones(stt.D), (K if op["form"] == "str" else 4) * EPS32,
-                                           "resample:spacing_not_as_requested",
-                                           f"spacing {out.spacing().tolist()} requested {sp.tolist()}"))
-            e_new, e_old = out.extent().double().numpy(), stt.extent()
-            if np.any(e_new < e_old * (1 - K * EPS32)):
-                raise Violation("resample:extent_shrunk", f"extent {e_new.tolist()} < previous extent {e_old.tolist()}")
-        elif res.family == "cube":
-            # the new grid covers exactly the cube of the old one
-            worst = max(worst, check_close(out.cube_extent().double().numpy() / stt.cube_extent(), np.ones(stt.D), K * EPS32,
-                                           "cube_grid:cube_extent", "cube_extent of Cube.grid() vs cube of the source grid"))
-            if not out.same_domain_as(grid):
-                raise Violation("cube_grid:not_same_domain", f"grid.cube().grid(...).same_domain_as(grid) is False: {out!r} vs {grid!r}")
-        if res.tie:
-            labels.append("tie_stop")
-            stopped = True
-            break
-        grid, stt = out, new
+        fam.check_intact("derivation_modified_existing_grid", f"{name}() applied to grid {grid!r}")
+        outs.append(out)
+    out = outs[0]
+    Wmax = max([member["wmax"]] + [s.W() for s in res.states])
+    bound = _bound(Wmax, depth)
+    if name == "pyramid":
+        L = int(op["levels"])
+        for o in outs:
+            if not isinstance(o, dict) or sorted(o.keys()) != list(range(L + 1)):
+                raise Violation("pyramid:levels", f"keys {sorted(o.keys()) if isinstance(o, dict) else type(o)} for levels={L}")
+        obs = {lv: [int(v) for v in out[lv].size()] for lv in range(L + 1)}
+        check_pyramid_sizes(stt.n, L, res.extra["sel"], res.extra["min_size"], obs)
+        new_members = []
+        for lv in range(L + 1):
+            try:
+                m_lv = resized(stt, obs[lv], [True] * stt.D, stt.ac)
+            except DomainError:
+                raise Violation("pyramid:size_recurrence", f"level {lv} has size {obs[lv]} for grid size {stt.n}, levels={L}, align_corners={stt.ac}") from None
+            worst = max(worst, check_state("pyramid", out[lv], m_lv, bound))
+            worst = max(worst, check_resize_anchors("pyramid", out[lv], stt, stt.ac, bound))
+            if not out[lv].same_domain_as(out[0]):
+                raise Violation("pyramid:not_same_domain", f"level {lv} .same_domain_as(level 0) is False: {out[lv]!r} vs {out[0]!r}")
+            if not out[0].same_domain_as(out[lv]):
+                raise Violation("pyramid:not_same_domain", f"level 0 .same_domain_as(level {lv}) is False")
+            ce, act = stt.cube_extent(), out[lv].cube_extent().double().numpy()
+            pos = ce > 0  # zero along a singleton axis with align_corners=True
+            worst = max(worst, check_close(act[pos] / ce[pos], np.ones(int(pos.sum())), K * EPS32,
+                                           "pyramid:cube_extent", f"cube_extent of level {lv} vs grid"))
+            check_close(act[~pos], np.zeros(int((~pos).sum())), 0.0, "pyramid:cube_extent", f"cube_extent of level {lv} along singleton axes")
+            if twice:
+                worst = max(worst, check_same_result("pyramid", out[lv], outs[1][lv]))
+            new_members.append(fam.add(out[lv], m_lv, Wmax, depth, f"{how}[{lv}]"))
+        fam.check_intact("read_only_call_modified_grid", "accessors / same_domain_as() on pyramid levels")
+        if obs != {lv: list(v) for lv, v in res.extra["sizes"].items()}:
+            labels.append("pyramid_sizes_unpredicted")
+            return True, new_members, worst
+        return False, new_members, worst
+    new = res.states[0]
+    if twice:
+        worst = max(worst, check_same_result(name, out, outs[1]))
+    if res.noop:
+        # documented short-cuts return the grid itself; geometry must be unchanged either way
+        worst = max(worst, check_state(name, out, stt, bound))
+        labels.append("noop")
+        return False, [fam.add(out, stt, Wmax, depth, how)], worst
+    worst = max(worst, check_state(name, out, new, bound, accept_sizes=res.alt_sizes if res.tie and res.alt_sizes else None))
+    if res.family in ("resize", "resample", "cube", "flag", "copy"):
+        # statement: center and orientation are kept (deepali stores the center, so this is a pass-through)
+        cmax = max(1.0, float(grid.center().abs().max()))
+        worst = max(worst, check_close(out.center(), grid.center(), 4 * EPS32 * cmax, f"{name}:center_moved", "center() of result vs center() of input"))
+        worst = max(worst, check_close(out.direction(), grid.direction(), 2 * EPS32, f"{name}:direction_changed", "direction() of result vs input"))
+    if res.family == "resize":
+        worst = max(worst, check_resize_anchors(name, out, stt, res.ac_eff, bound))
+        if res.ac_eff == stt.ac and not out.same_domain_as(grid):
+            raise Violation(f"{name}:not_same_domain", f"result.same_domain_as(grid) is False: {out!r} vs {grid!r}")
+        if name == "downsample" and not any(res.clamped) and int(op["levels"]) > 0:
+            kw = {}
+            if op.get("dims") is not None:
+                kw["dims"] = tuple(op["dims"])
+            if op.get("ac") is not None:
+                kw["align_corners"] = bool(op["ac"])
+            back = out.upsample(int(op["levels"]), **kw)
+            if not (back == grid):
+                raise Violation("downsample:upsample_roundtrip_neq", f"downsample({op['levels']}).upsample({op['levels']}) != grid: {back!r} vs {grid!r}")
+            worst = max(worst, check_state("downsample:upsample_roundtrip", back, stt, bound))
+            labels.append("down_up")
+    elif res.family == "index":
+        worst = max(worst, check_index_positions(name, out, stt, res, bound))
+    elif res.family == "resample":
+        sp = res.extra["spacing"]
+        worst = max(worst, check_close(out.spacing().double().numpy() / sp, np.ones(stt.D), (K if op["form"] == "str" else 4) * EPS32,
+                                       "resample:spacing_not_as_requested",
+                                       f"spacing {out.spacing().tolist()} requested {sp.tolist()}"))
+        e_new, e_old = out.extent().double().numpy(), stt.extent()
+        if np.any(e_new < e_old * (1 - K * EPS32)):
+            raise Violation("resample:extent_shrunk", f"extent {e_new.tolist()} < previous extent {e_old.tolist()}")
+    elif res.family == "cube":
+        # the new grid covers exactly the cube of the old one
+        worst = max(worst, check_close(out.cube_extent().double().numpy() / stt.cube_extent(), np.ones(stt.D), K * EPS32,
+                                       "cube_grid:cube_extent", "cube_extent of Cube.grid() vs cube of the source grid"))
+        if not out.same_domain_as(grid):
+            raise Violation("cube_grid:not_same_domain", f"grid.cube().grid(...).same_domain_as(grid) is False: {out!r} vs {grid!r}")
+    elif res.family == "copy" and name in ("clone", "deepcopy"):
+        # docstrings: 'Make deep copy of this Grid instance' / 'copy.deepcopy to clone this grid'
+        mine = {t.untyped_storage().data_ptr() for t in _attr_tensors(grid)}
+        for slot, t in zip(SLOTS, _attr_tensors(out)):
+            if t.untyped_storage().data_ptr() in mine:
+                raise Violation(f"{name}:shares_tensor_with_source", f"attribute '{slot}' of the {name} result uses the same memory as an attribute tensor of the source grid")
+    # the oracle above only reads; it must leave every grid as it was (accessors, ==, same_domain_as, cube(), upsample)
+    fam.check_intact("read_only_call_modified_grid", f"accessors / predicates on the result of {name}() and on its source")
+    if res.tie:
+        labels.append("tie_stop")
+        return True, [fam.add(out, None, Wmax, depth, how)], worst
+    return False, [fam.add(out, new, Wmax, depth, how)], worst
+
+
+def _attr_tensors(grid):
+    return [grid._size, grid.spacing(), grid.center(), grid.direction()]
+
+
+def _base_labels(case):
+    g = case["grid"]
+    return [f"D={len(g['size'])}", f"ac={g['ac']}", g["kind"], "route=" + ("origin" if "origin" in g else case.get("route", "center"))]
+
+
+def _start(case):
+    g = case["grid"]
+    grid = make_grid(g, case.get("route", "center"))
+    stt = State.from_desc(g)
+    fam = Family()
+    root = fam.add(grid, stt, stt.W(), 0, "Grid()")
+    worst = check_state("initial", grid, stt, _bound(stt.W()))
+    return fam, root, worst
+
+
+def _nontrivial(case, nsteps, stopped):
     g0 = case["grid"]
     odd = any(v % 2 for v in g0["size"])
-    nt = odd and gen.grid_is_oblique(g0) and gen.grid_is_anisotropic(g0) and len(case["ops"]) >= 2 and not stopped
-    return {"ratio": worst, "nontrivial": nt, "labels": labels}
+    return bool(odd and gen.grid_is_oblique(g0) and gen.grid_is_anisotropic(g0) and nsteps >= 2 and not stopped)
+
+
+def run_chain(case):
+    fam, cur, worst = _start(case)
+    labels = _base_labels(case) + [f"len={len(case['ops'])}"]
+    stopped = False
+    for op in case["ops"]:
+        stop, new, r = apply_step(fam, cur, op, labels)
+        worst = max(worst, r)
+        if stop:
+            stopped = True
+            break
+        cur = new[int(op["pick"])] if op["op"] == "pyramid" else new[0]
+    worst = max(worst, fam.check_final())
+    return {"ratio": worst, "nontrivial": _nontrivial(case, len(case["ops"]), stopped), "labels": labels}
+
+
+def run_tree(case):
+    """Tree of derivations on live objects: step k derives from node step['parent'] (node 0 = the generated grid; a
+    pyramid appends one node per level, every other operation one node)."""
+    fam, root, worst = _start(case)
+    nodes = [root]
+    labels = _base_labels(case) + [f"steps={len(case['steps'])}"]
+    stopped = False
+    for step in case["steps"]:
+        parent = nodes[int(step["parent"])]
+        stop, new, r = apply_step(fam, parent, step["op"], labels, twice=True, warm=int(step.get("warm", 0)))
+        worst = max(worst, r)
+        if stop:
+            stopped = True
+            break
+        nodes.extend(new)
+    worst = max(worst, fam.check_final())
+    fam.check_intact("read_only_call_modified_grid", "final comparison of all grids with the reference geometry")
+    parents = [int(s["parent"]) for s in case["steps"]]
+    if len(set(parents)) < len(parents):
+        labels.append("siblings")
+    if any(p > 0 for p in parents):
+        labels.append("grandchildren")
+    labels.append(f"grids={min(len(fam.members), 9)}")
+    return {"ratio": worst, "nontrivial": _nontrivial(case, len(case["steps"]), stopped), "labels": labels}
 
 
 # ---------------------------------------------------------------------------------------
@@ -891,7 +1104,35 @@ def g_flag(draw, stt):
     return {"op": "align_corners", "value": draw(st.booleans())}
 
 
+def g_setter(draw, stt, attr):
+    """with-er (new grid) or in-place setter on a fresh shallow copy: spacing / center / origin / direction / align_corners."""
+    D = stt.D
+    op = {"op": draw(st.sampled_from(["with_", "with_", "set_"])) + attr}
+    if attr == "spacing":
+        fac = draw(st.lists(st.sampled_from([0.5, 2.0, 1.25, 0.8, 3.0, 1.0]), min_size=D, max_size=D))
+        op["value"] = [min(max(_round_sig(float(a) * f), 0.01), 100.0) for a, f in zip(stt.s, fac)]
+        op["form"] = draw(st.sampled_from(["list", "args"]))
+    elif attr in ("center", "origin"):
+        mag = draw(st.sampled_from([500.0, 50.0, 5.0]))
+        op["value"] = draw(st.lists(st.one_of(st.just(0.0), gen.qfloat(-mag, mag, 0.01), gen.qfloat(-mag, mag, 0.01)), min_size=D, max_size=D))
+        op["form"] = draw(st.sampled_from(["list", "args"]))
+    elif attr == "direction":
+        d = draw(gen.directions(D))
+        op["value"] = {"rot": d["rot"], "perm": d["perm"], "flip": d["flip"]}
+        op["form"] = draw(st.sampled_from(["tensor", "rows"]))
+    else:
+        op["value"] = draw(st.booleans())
+    return op
+
+
+def g_copy(draw, stt):
+    return {"op": draw(st.sampled_from(list(COPY_OPS)))}
+
+
 GENERATORS = {
+    "spacing": lambda d, s: g_setter(d, s, "spacing"), "center": lambda d, s: g_setter(d, s, "center"),
+    "origin": lambda d, s: g_setter(d, s, "origin"), "direction": lambda d, s: g_setter(d, s, "direction"),
+    "flag": lambda d, s: g_setter(d, s, "align_corners"), "copies": g_copy,
     "resize": g_resize, "downsample": g_downsample, "upsample": g_upsample, "pyramid": g_pyramid, "resample": g_resample,
     "crop": lambda d, s: g_croppad(d, s, "crop"), "pad": lambda d, s: g_croppad(d, s, "pad"),
     "center_crop": lambda d, s: g_center(d, s, "center_crop"), "center_pad": lambda d, s: g_center(d, s, "center_pad"),
@@ -900,6 +1141,7 @@ GENERATORS = {
 RESIZE_POOL = ["resize", "resize", "downsample", "downsample", "upsample", "pyramid", "pyramid", "resample", "cube_grid", "align_corners"]
 INDEX_POOL = ["crop", "crop", "pad", "pad", "center_crop", "center_pad", "narrow", "roi", "roi", "pool", "pool"]
 GROWING = {"resize", "upsample", "pad", "center_pad", "roi", "resample", "cube_grid", "downsample"}
+OBJECT_POOL = ["spacing", "center", "origin", "direction", "flag", "copies"]  # setters (new grid / in place on a shallow copy), copies
 
 
 def chain_cases(pool, min_len=1, max_len=3, min_size=1, Ds=(2, 3)):
@@ -928,6 +1170,48 @@ def chain_cases(pool, min_len=1, max_len=3, min_size=1, Ds=(2, 3)):
                 break
             stt = res.states[res.pick if op["op"] == "pyramid" else 0]
         case = {"grid": g, "ops": ops}
+        if "origin" not in g:
+            case["route"] = draw(st.sampled_from(["center", "origin"]))
+        return case
+
+    return cases
+
+
+def tree_cases(pool, min_steps=2, max_steps=5, Ds=(2, 3)):
+    """A grid and 2-5 derivation steps, each applied to one of the grids obtained so far (parents, siblings, grandchildren)."""
+    @st.composite
+    def cases(draw):
+        D = draw(st.sampled_from(list(Ds)))
+        g = draw(base_grids(D))
+        nodes = [State.from_desc(g)]  # reference state of node k (None: size ambiguous because of a rounding tie)
+        nsteps = draw(st.sampled_from([k for k in (2, 3, 3, 4, 5) if min_steps <= k <= max_steps]))
+        steps = []
+        for _ in range(nsteps):
+            usable = [i for i, s in enumerate(nodes) if s is not None]
+            parent = draw(st.sampled_from([0, usable[-1], usable[-1]] + usable))
+            stt = nodes[parent]
+            names = list(pool)
+            if max(stt.n) > NMAX:
+                names = [x for x in names if x not in GROWING] or ["narrow"]
+            op = res = None
+            for _try in range(4):
+                name = draw(st.sampled_from(names))
+                op = settle(stt, GENERATORS[name](draw, stt))
+                if op is not None:
+                    res = model_apply(stt, op)
+                    if not res.extra.get("skip"):
+                        break
+                    op = None
+            if op is None:
+                break
+            # warm-up: read-only calls made on the parent before the step (none / all / a subset)
+            warm = draw(st.one_of(st.just(0), st.just((1 << gen.N_WARM) - 1), st.integers(1, (1 << gen.N_WARM) - 1)))
+            steps.append({"parent": parent, "op": op, "warm": warm})
+            if op["op"] == "pyramid":
+                nodes.extend(res.states)
+            else:
+                nodes.append(None if res.tie else res.states[0])
+        case = {"grid": g, "steps": steps}
         if "origin" not in g:
             case["route"] = draw(st.sampled_from(["center", "origin"]))
         return case
@@ -1002,6 +1286,13 @@ FACETS = [
           rule="chains of 1-3 resize-family operations (resize/reshape/downsample/upsample/pyramid/resample/Cube.grid/align_corners) on "
                "grids with >= 2 samples per axis; non-trivial as for chains",
           quick=900, thorough=20000, shards=16, quick_shards=3),
+    Facet("trees", run_tree, strategy=tree_cases(RESIZE_POOL + INDEX_POOL + OBJECT_POOL),
+          rule="grid + 2-5 derivation steps, each applied (twice, after optional read-only warm-up calls) to any grid obtained so far "
+               "(parent, sibling, grandchild; pyramid adds every level): all 17 derivation methods plus spacing/center/origin/direction/"
+               "align_corners setters (new-grid form and in-place form on a shallow copy) and clone/copy/deepcopy/pickle; every grid of "
+               "the tree is fingerprinted after every call and re-compared with the reference geometry at the end; non-trivial = an odd "
+               "size, oblique direction, anisotropic spacing, >= 2 steps, not ended by a rounding tie",
+          quick=900, thorough=16000, shards=16, quick_shards=3),
     Facet("index_family", run_chain, strategy=chain_cases(INDEX_POOL + ["downsample", "align_corners"], 1, 3),
           rule="chains of 1-3 index-family operations (crop/pad forms, center_crop/pad, narrow, region_of_interest, pool/avg_pool), "
                "interleaved with downsample to reach fractional internal sizes; non-trivial as for chains",
